@@ -449,7 +449,7 @@ def first_difference(rust, model, rtol, adjudicate=None, lenient=None):
     """Index of the first instruction whose observations differ, or None.  With
     [adjudicate] only the listed instructions (and panics) are compared; [lenient] lists
     instructions where the implementation may hold no gradient although the model does."""
-    if rust == ["timeout"]:
+    if rust == ["timeout"] or rust == ["crash"]:
         return 0
     n = max(len(rust), len(model))
     for i in range(n):
